@@ -734,6 +734,7 @@ let () =
               | [ "DROPALL" ] -> Hashtbl.reset tts; Hashtbl.reset fams; dropall_gc := true
               | [ "GC" ] -> gc_pending := true
               | [ "SESSION"; _ ] -> ()
+              | "EXPORT" :: _ -> ()      (* no handle changes; the reference counts are audited on the next snapshot *)
               | [ "TFILL" ] ->
                 (* terminal capacity probe (MTBDD): with every created constant alive, get_edge may fail only
                    when all terminal slots are in use (C05_term_get_oom_iff) *)
